@@ -1,5 +1,5 @@
 /-
-  C50 — `str(IPv6Address(data))` (Model/C50_V6 `pyTextV6`) is read back by C22's `parseIp` to the same 128-bit value.
+  C50 — `str(IPv6Address(data))` (Model/C50_V6 `Codecs.pyTextV6`) is read back by C22's `parseIp` to the same 128-bit value.
   Outside the two embedded-IPv4 shapes the text equals C21's inet_ntop6 text, whose read-back C21 proved
   (`parseIp_words`); the two shapes `::x:y` and `::ffff:x:y` are read directly.
 -/
@@ -18,17 +18,17 @@ def embedded (best : Option Run) (w5 : Nat) : Prop :=
   | none => False
 
 theorem emitV6_eq_emitPy (best : Option Run) (w5 : Nat) (l4 : Bytes) (h : ¬ embedded best w5) :
-    ∀ (ws : List Nat) (i : Nat), emitV6 best w5 l4 ws i = emitPy best ws i := by
+    ∀ (ws : List Nat) (i : Nat), emitV6 best w5 l4 ws i = Codecs.emitPy best ws i := by
   intro ws
   induction ws with
   | nil => intro i; rfl
   | cons w r ih =>
     intro i
     cases best with
-    | none => simp only [emitV6, emitPy, ih]
+    | none => simp only [emitV6, Codecs.emitPy, ih]
     | some b =>
       have hb : ¬ (b.base = 0 ∧ (b.len = 6 ∨ (b.len = 5 ∧ w5 = 0xffff))) := h
-      simp only [emitV6, emitPy, ih]
+      simp only [emitV6, Codecs.emitPy, ih]
       split
       · rfl
       · have : ¬ (i = 6 ∧ b.base = 0 ∧ (b.len = 6 ∨ b.len = 5 ∧ w5 = 65535)) := fun hh => hb hh.2
@@ -40,9 +40,9 @@ variable (w0 w1 w2 w3 w4 w5 w6 w7 : Nat)
 include f0 f1 f2 f3 f4 f5 f6 f7
 
 theorem read_py_0_6 :
-    C22.parseIp (asciiBytes (emitPy (some ⟨0, 6⟩) [0, 0, 0, 0, 0, 0, w6, w7] 0 ++ [])) =
+    C22.parseIp (asciiBytes (Codecs.emitPy (some ⟨0, 6⟩) [0, 0, 0, 0, 0, 0, w6, w7] 0 ++ [])) =
       some (.v6 (fw (fw 0 [] * 65536 ^ 6) [w6, w7]) none) := by
-  simp only [emitPy, asciiBytes_append, asciiBytes_cons, asciiBytes_nil, H_def, List.nil_append, List.append_nil,
+  simp only [Codecs.emitPy, asciiBytes_append, asciiBytes_cons, asciiBytes_nil, H_def, List.nil_append, List.append_nil,
     Nat.reduceAdd, Nat.reduceLeDiff, Nat.reduceLT, Nat.reduceEqDiff, Nat.zero_le, Nat.le_refl, Nat.lt_irrefl,
     ne_eq, not_true_eq_false, not_false_eq_true, if_true, if_false, List.cons_append, colon_byte,
     true_and, and_true, false_and, and_false, Nat.not_lt_zero, Nat.zero_lt_succ, Nat.lt_add_one, Nat.not_succ_le_self,
@@ -58,9 +58,9 @@ theorem read_py_0_6 :
   simp [C22.assembleSkip, C22.foldParts, C22.Part.val, f0.ph, f1.ph, f2.ph, f3.ph, f4.ph, f5.ph, f6.ph, f7.ph, fw, -Nat.reducePow]
 
 theorem read_py_0_5 :
-    C22.parseIp (asciiBytes (emitPy (some ⟨0, 5⟩) [0, 0, 0, 0, 0, w5, w6, w7] 0 ++ [])) =
+    C22.parseIp (asciiBytes (Codecs.emitPy (some ⟨0, 5⟩) [0, 0, 0, 0, 0, w5, w6, w7] 0 ++ [])) =
       some (.v6 (fw (fw 0 [] * 65536 ^ 5) [w5, w6, w7]) none) := by
-  simp only [emitPy, asciiBytes_append, asciiBytes_cons, asciiBytes_nil, H_def, List.nil_append, List.append_nil,
+  simp only [Codecs.emitPy, asciiBytes_append, asciiBytes_cons, asciiBytes_nil, H_def, List.nil_append, List.append_nil,
     Nat.reduceAdd, Nat.reduceLeDiff, Nat.reduceLT, Nat.reduceEqDiff, Nat.zero_le, Nat.le_refl, Nat.lt_irrefl,
     ne_eq, not_true_eq_false, not_false_eq_true, if_true, if_false, List.cons_append, colon_byte,
     true_and, and_true, false_and, and_false, Nat.not_lt_zero, Nat.zero_lt_succ, Nat.lt_add_one, Nat.not_succ_le_self,
@@ -76,7 +76,7 @@ theorem read_py_0_5 :
   simp [C22.assembleSkip, C22.foldParts, C22.Part.val, f0.ph, f1.ph, f2.ph, f3.ph, f4.ph, f5.ph, f6.ph, f7.ph, fw, -Nat.reducePow]
 
 theorem parseIp_words_py (a b c d : UInt8) (h6 : w6 = a.toNat * 256 + b.toNat) (h7 : w7 = c.toNat * 256 + d.toNat) :
-    C22.parseIp (asciiBytes (emitPy (bestRun [w0, w1, w2, w3, w4, w5, w6, w7])
+    C22.parseIp (asciiBytes (Codecs.emitPy (bestRun [w0, w1, w2, w3, w4, w5, w6, w7])
         [w0, w1, w2, w3, w4, w5, w6, w7] 0 ++ v6Tail (bestRun [w0, w1, w2, w3, w4, w5, w6, w7]))) =
       some (.v6 (wordsVal [w0, w1, w2, w3, w4, w5, w6, w7]) none) := by
   by_cases hemb : embedded (bestRun [w0, w1, w2, w3, w4, w5, w6, w7]) w5
@@ -125,9 +125,9 @@ theorem parseIp_words_py (a b c d : UInt8) (h6 : w6 = a.toNat * 256 + b.toNat) (
 end
 
 /-- **str(IPv6Address(ad)) reads back**: for every 16-byte address, C22's transcription of `ipaddress` applied to the
-    text `pyTextV6 ad` gives the IPv6 address with exactly these 8 words and no scope -/
+    text `Codecs.pyTextV6 ad` gives the IPv6 address with exactly these 8 words and no scope -/
 theorem parseIp_pyTextV6 (ad : Bytes) (h : ad.length = 16) :
-    C22.parseIp (asciiBytes (pyTextV6 ad)) = some (.v6 (beNat ad) none) := by
+    C22.parseIp (asciiBytes (Codecs.pyTextV6 ad)) = some (.v6 (beNat ad) none) := by
   rw [← wordsVal_words16 ad h]
   match ad, h with
   | [b0, b1, b2, b3, b4, b5, b6, b7, b8, b9, b10, b11, b12, b13, b14, b15], _ =>
@@ -136,7 +136,7 @@ theorem parseIp_pyTextV6 (ad : Bytes) (h : ad.length = 16) :
     have := parseIp_words_py _ _ _ _ _ _ _ _ (WF_of_lt _ (lt b0 b1)) (WF_of_lt _ (lt b2 b3)) (WF_of_lt _ (lt b4 b5))
       (WF_of_lt _ (lt b6 b7)) (WF_of_lt _ (lt b8 b9)) (WF_of_lt _ (lt b10 b11)) (WF_of_lt _ (lt b12 b13))
       (WF_of_lt _ (lt b14 b15)) b12 b13 b14 b15 rfl rfl
-    simp only [pyTextV6, words16]
+    simp only [Codecs.pyTextV6, words16]
     revert this
     generalize bestRun [b0.toNat * 256 + b1.toNat, b2.toNat * 256 + b3.toNat, b4.toNat * 256 + b5.toNat,
       b6.toNat * 256 + b7.toNat, b8.toNat * 256 + b9.toNat, b10.toNat * 256 + b11.toNat,
@@ -184,21 +184,21 @@ theorem hexWord_ascii (w : Nat) : ∀ c ∈ hexWord w, c.toNat < 128 := by
       · simp at hc; rcases hc with rfl | rfl | rfl <;> exact hx _ (by omega)
       · simp at hc; rcases hc with rfl | rfl | rfl | rfl <;> exact hx _ (by omega)
 
-theorem emitPy_ascii (best : Option Run) : ∀ (ws : List Nat) (i : Nat), ∀ c ∈ emitPy best ws i, c.toNat < 128 := by
+theorem emitPy_ascii (best : Option Run) : ∀ (ws : List Nat) (i : Nat), ∀ c ∈ Codecs.emitPy best ws i, c.toNat < 128 := by
   intro ws
   induction ws with
-  | nil => intro i c hc; simp [emitPy] at hc
+  | nil => intro i c hc; simp [Codecs.emitPy] at hc
   | cons w r ih =>
     intro i c hc
     cases best with
     | none =>
-      simp only [emitPy, List.mem_append] at hc
+      simp only [Codecs.emitPy, List.mem_append] at hc
       rcases hc with (hc | hc) | hc
       · split at hc <;> simp at hc; subst hc; decide
       · exact hexWord_ascii w c hc
       · exact ih _ c hc
     | some b =>
-      simp only [emitPy] at hc
+      simp only [Codecs.emitPy] at hc
       split at hc
       · simp only [List.mem_append] at hc
         rcases hc with hc | hc
@@ -210,9 +210,9 @@ theorem emitPy_ascii (best : Option Run) : ∀ (ws : List Nat) (i : Nat), ∀ c 
         · exact hexWord_ascii w c hc
         · exact ih _ c hc
 
-theorem pyTextV6_ascii (ad : Bytes) : ∀ c ∈ pyTextV6 ad, c.toNat < 128 := by
+theorem pyTextV6_ascii (ad : Bytes) : ∀ c ∈ Codecs.pyTextV6 ad, c.toNat < 128 := by
   intro c hc
-  simp only [pyTextV6, List.mem_append] at hc
+  simp only [Codecs.pyTextV6, List.mem_append] at hc
   rcases hc with hc | hc
   · exact emitPy_ascii _ _ _ c hc
   · split at hc
@@ -228,14 +228,14 @@ theorem ip6_dec_enc (data : Bytes) (s : List Nat) (h : ip6Dec data = some s) : i
   split at h
   · rename_i hlen
     cases h
-    have hasc : ((pyTextV6 data).map Char.toNat).all (· < 128) = true := by
+    have hasc : ((Codecs.pyTextV6 data).map Char.toNat).all (· < 128) = true := by
       simp only [List.all_eq_true, List.mem_map, decide_eq_true_eq]
       rintro x ⟨c, hc, rfl⟩
       exact pyTextV6_ascii data c hc
     have hp := parseIp_pyTextV6 data hlen
-    have hv6 : C22.parseV6 (asciiBytes (pyTextV6 data)) = some (.v6 (beNat data) none) := by
+    have hv6 : C22.parseV6 (asciiBytes (Codecs.pyTextV6 data)) = some (.v6 (beNat data) none) := by
       unfold C22.parseIp at hp
-      cases h4 : C22.parseV4 (asciiBytes (pyTextV6 data)) with
+      cases h4 : C22.parseV4 (asciiBytes (Codecs.pyTextV6 data)) with
       | some n => simp [h4] at hp
       | none => simpa [h4] using hp
     unfold ip6Enc
